@@ -15,6 +15,10 @@ var targetFile = map[string]string{
 	"ChecksumSize":       "GenFrame",
 	"poolIndex":          "GenFrame",
 	"relayRoute":         "GenFrame",
+	// C15
+	"preferIncomingScore": "GenPeers",
+	"leastPendingScore":   "GenPeers",
+	"zeroScore":           "GenPeers",
 }
 
 // varFields: constant fields of package-level composite-literal variables.
@@ -83,4 +87,12 @@ var targets = []Target{
 			"shouldRelease, err := c.relay.Relay(frame)":                                       "",
 			"if err != nil {...": "",
 		}},
+	// C15: peer_strategies.go score calculators over (inbound, outbound, pending)
+	{Func: "preferIncomingCalculator.GetScore", Out: "preferIncomingScore", Params: "(inbound outbound pending : Z)", Ret: "Z",
+		Hints:  map[string]string{"p.NumPendingOutbound()": "pending"},
+		SHints: map[string]string{"inbound, outbound := p.NumConnections()": ""}},
+	{Func: "leastPendingCalculator.GetScore", Out: "leastPendingScore", Params: "(inbound outbound pending : Z)", Ret: "Z",
+		Hints:  map[string]string{"p.NumPendingOutbound()": "pending"},
+		SHints: map[string]string{"inbound, outbound := p.NumConnections()": ""}},
+	{Func: "zeroCalculator.GetScore", Out: "zeroScore", Params: "(inbound outbound pending : Z)", Ret: "Z"},
 }
